@@ -909,6 +909,11 @@ func (m *Model) Delete(store, id string, system bool) []string {
 
 // DeleteWhere predicts and applies "delete every entity of the store's population whose name equals the value".
 func (m *Model) DeleteWhere(store, name string, system bool) []string {
+	return m.DeleteWhereField(store, FName, name, system)
+}
+
+// DeleteWhereField is DeleteWhere with the filter "<field> = value" for field name or note.
+func (m *Model) DeleteWhereField(store, field, name string, system bool) []string {
 	parent := m.BaseStore(store)
 	cc, viaChild := m.childCfg(store)
 	if viaChild && cc.Extended {
@@ -916,7 +921,7 @@ func (m *Model) DeleteWhere(store, name string, system bool) []string {
 	}
 	var ids []string
 	for id, e := range m.Ents[parent] {
-		if e.Name != name {
+		if field == FName && e.Name != name || field == FNote && e.Note != name {
 			continue
 		}
 		if viaChild {
